@@ -1189,21 +1189,69 @@ def A18_cli_wiring(repo, clause):
     obs.append(Ob("A18", clause, fn, ch[0] if ch else fn.node, ok, "charge file values are stored as the structure's charges (only when given)" if ch else
                   "the values of --chargefile are NEVER stored into the structure (no assignment to .charges)", construct=None if ch else "atoms.charges = charges",
                   slot="flow:chargefile", positive=not ch))
-    # blank lines of the charge file are skipped, every other line is a charge
+    # blank lines of the charge file are skipped, every other line is a charge: the line filter and the conversion are evaluated on representative lines
+    # ("", whitespace only, a number, a number with surrounding blanks / newline) - a kept line must be convertible, a line with a number must be kept
     if ch:
-        for comp in [x for x in fn.own_nodes() if isinstance(x, ast.comprehension) and isinstance(x.iter, ast.Name) and x.iter.id == "chargefile"]:
-            for cond in comp.ifs:
-                e_ = eq_const(cond) if isinstance(cond, ast.Compare) else None
-                keeps_nonblank = e_ is not None and e_[1] == "" and not e_[2]
-                obs.append(Ob("A18", clause, fn, cond, keeps_nonblank,
-                              "charge file filter `%s` %s" % (ast.unparse(cond), "keeps the non-blank lines" if keeps_nonblank else "KEEPS ONLY BLANK LINES (or is not a blank-line test)"),
-                              slot="chargefile-filter", positive=e_ is not None and e_[1] == "" and e_[2], undecided=not (e_ is not None and e_[1] == "")))
+        from .common import eval_small, Undecidable
+        cv = expand(fn, ch[0].value)
+        comps = [x for x in ast.walk(cv) if isinstance(x, (ast.ListComp, ast.GeneratorExp)) and len(x.generators) == 1 and isinstance(x.generators[0].target, ast.Name)
+                 and "chargefile" in ast.unparse(expand(fn, x.generators[0].iter))]
+        if len(comps) == 1:
+            comp = comps[0]
+            g = comp.generators[0]
+            lv = g.target.id
+            conv = comp.elt.args[0] if isinstance(comp.elt, ast.Call) and call_name(comp.elt) == "float" and len(comp.elt.args) == 1 else None
+            # lines as the iteration delivers them: file iteration keeps the newline, read().split("\n") / splitlines() do not
+            it_txt = ast.unparse(expand(fn, g.iter))
+            nl = "" if ("split(" in it_txt or "splitlines" in it_txt) else "\n"
+            verdict, why, und = None, "", None
+            try:
+                if conv is None:
+                    raise Undecidable("conversion is not float(<line>)")
+                for raw, has_number in (("", False), (" ", False), ("\t", False), ("0.5", True), (" 0.5 ", True), ("-1", True)):
+                    line = raw + nl if not (raw == "" and nl == "") else raw
+                    env_ = {lv: line}
+                    kept = all(bool(eval_small(c_, env_)) for c_ in g.ifs)
+                    if kept:
+                        arg = eval_small(conv, env_)
+                        if not isinstance(arg, str) or arg.strip() == "":
+                            verdict, why = False, "the line %r passes the filter `%s` and reaches float(): a whitespace-only line makes the command fail" % (line, " and ".join(ast.unparse(c_) for c_ in g.ifs) or "(none)")
+                            break
+                    elif has_number:
+                        verdict, why = False, "the line %r is DROPPED by the filter `%s` although it carries a charge" % (line, " and ".join(ast.unparse(c_) for c_ in g.ifs))
+                        break
+                else:
+                    verdict, why = True, "blank and whitespace-only lines are skipped, every other line is converted"
+            except Undecidable as e_:
+                und = str(e_)
+            obs.append(Ob("A18", clause, fn, comp, verdict is True, "charge file lines: %s" % (why if und is None else "filter / conversion outside the table language (%s)" % und),
+                          slot="chargefile-filter", positive="robust" if verdict is False else False, undecided=verdict is None))
     reps = [c for c in calls_in(fn) if call_name(c) == "replicate"]
     mic_c = [c for c in reps if c.args and "mic" in ast.unparse(expand(fn, c.args[0]))]
     ok = len(mic_c) == 1 and any(pol and is_none_test(t, "mic") == "isnot" for t, pol, k in norm_guards(fn, mic_c[0]))
     obs.append(Ob("A18", clause, fn, mic_c[0] if mic_c else fn.node, ok, "minimum-image cutoff determines the second replication (only when given)", slot="flow:mic"))
     if mic_c:
         obs.append(_mic_formula(fn, clause, mic_c[0]))
+        # the replication is not skipped for any count vector that has a component above 1: a guard on the counts is evaluated on representative vectors
+        if mic_c[0].args and isinstance(mic_c[0].args[0], ast.Name):
+            from .common import eval_small, Undecidable, Vec
+            rn = mic_c[0].args[0].id
+            gsr = [(t, pol) for t, pol, k in norm_guards(fn, mic_c[0]) if any(isinstance(y, ast.Name) and y.id == rn for y in ast.walk(t))]
+            if gsr:
+                try:
+                    bad = []
+                    for vec in ((1, 1, 1), (2, 1, 1), (1, 3, 1), (1, 1, 2), (2, 2, 2), (3, 1, 2)):
+                        taken = all(bool(eval_small(t, {rn: Vec(vec)})) == pol for t, pol in gsr)
+                        if not taken and max(vec) > 1:
+                            bad.append(vec)
+                    obs.append(Ob("A18", clause, fn, mic_c[0], not bad,
+                                  "the --mic replication is %s" % ("only skipped when every count is 1" if not bad else
+                                                                   "SKIPPED for the counts %s under `%s`: a cell that is long enough on one axis but too short on another is written un-replicated" % (
+                                                                       list(bad[0]), " and ".join(ast.unparse(t) for t, _ in gsr)[:60])),
+                                  slot="mic-replicate-guard", positive="robust" if bad else False))
+                except Undecidable as e_:
+                    obs.append(Ob("A18", clause, fn, mic_c[0], False, "the --mic replication is guarded by a test on the counts that is outside the table language (%s)" % e_,
+                                  slot="mic-replicate-guard", undecided=True))
     ppc = [c for c in calls_in(fn) if call_name(c) == "assign_pair_params_to_structure"]
     ok = len(ppc) == 1 and any(pol and isinstance(t, ast.Name) and t.id == "pp" for t, pol, k in norm_guards(fn, ppc[0]))
     obs.append(Ob("A18", clause, fn, ppc[0] if ppc else fn.node, ok, "--pp triggers pair-coefficient assignment", slot="flow:pp"))
